@@ -70,15 +70,23 @@ Proof. reflexivity. Qed.
 
 (* The faithful model of the Go compiler against the spec - the link theorem: for every well-formed
    schema the model compiles it and the oracle `satisfies` accepts the model's output (so the
-   property holds on every input on which compiler and model agree).  No hypothesis beyond `wf a`:
-   the seven points at which compilers of this family have differed are read off the source, and the
-   source does all seven the spec's way (side conditions above). *)
+   property holds on every input on which compiler and model agree).
+
+   Ten points at which compilers of this family have differed are read off the source; seven of them
+   the source does the spec's way (side conditions above).  Three are open findings (F30, F31, F32):
+   for each the theorem carries the hypothesis "the compiler does it the spec's way, or the schema
+   stays clear of the shape" - the hypotheses the proof forces ARE the findings.  With a flag `true`
+   its hypothesis holds for every schema (`or_introl`). *)
 Theorem go_model_meets_spec :
   forall a, wf a = true ->
+  (parser_inherited_nested_in_own_package = true \/ no_foreign_nested a = true) ->  (* F30 *)
+  (parser_diamond_below_heir_accepted = true \/ no_diamond_below a = true) ->       (* F31 *)
+  (parser_grant_inherited_columns = true \/ grant_cols_own a = true) ->             (* F32 *)
   exists d, compile a Go = Some d /\ satisfies (Trace a (render a) (Compiled d true true)) = true.
 Proof.
-  exact (go_meets_spec_proved uniques_numbered_per_type nested_tables_inherit view_refs_recorded
-                              inherited_grants_once lookup_respects_package inherits_in_own_package descriptor_refs_analysed).
+  exact (fun a Hwf => go_meets_spec_within_proved uniques_numbered_per_type nested_tables_inherit view_refs_recorded a Hwf
+                        (or_introl inherited_grants_once) (or_introl lookup_respects_package)
+                        (or_introl inherits_in_own_package) (or_introl descriptor_refs_analysed)).
 Qed.
 
 (* the form the theorem had while the repairs of F26..F29 were missing: each hypothesis reads "the
@@ -90,6 +98,9 @@ Theorem go_model_meets_spec_within :
   (parser_lookup_respects_package = true \/ names_distinct a = true) ->       (* F26 *)
   (parser_inherits_in_own_package = true \/ inherits_qualified a = true) ->   (* F27 *)
   (parser_descriptor_refs_analysed = true \/ no_desc_ref_targets a = true) -> (* F29 *)
+  (parser_inherited_nested_in_own_package = true \/ no_foreign_nested a = true) ->  (* F30 *)
+  (parser_diamond_below_heir_accepted = true \/ no_diamond_below a = true) ->       (* F31 *)
+  (parser_grant_inherited_columns = true \/ grant_cols_own a = true) ->             (* F32 *)
   exists d, compile a Go = Some d /\ satisfies (Trace a (render a) (Compiled d true true)) = true.
 Proof. exact (go_meets_spec_within_proved uniques_numbered_per_type nested_tables_inherit view_refs_recorded). Qed.
 
@@ -102,7 +113,7 @@ Proof.
                    (or_introl inherited_grants_once) (or_introl descriptor_refs_analysed)).
 Qed.
 
-(* The same for any compiler of this family (mode m): at each of the seven points it does what the
+(* The same for any compiler of this family (mode m): at each of the ten points it does what the
    spec does, or the schema avoids the shape on which they differ ... *)
 Theorem any_mode_meets_spec_conditional :
   forall a m, wf a = true ->
@@ -113,6 +124,9 @@ Theorem any_mode_meets_spec_conditional :
   (m_res_pkg m = true \/ names_distinct a = true) ->
   (m_res_inh m = true \/ inherits_qualified a = true) ->
   (m_desc_refs m = true \/ no_desc_ref_targets a = true) ->
+  (m_nested_pkg m = true \/ no_foreign_nested a = true) ->
+  (m_diamond m = true \/ no_diamond_below a = true) ->
+  (m_grant_inh m = true \/ grant_cols_own a = true) ->
   exists d, compile a m = Some d /\ satisfies (Trace a (render a) (Compiled d true true)) = true.
 Proof. exact satisfies_model_output_proved. Qed.
 
@@ -162,19 +176,40 @@ Example shapes_of_the_probes :
   /\ wf a_f29bad = false.
 Proof. vm_compute. repeat split. Qed.
 
-Example old_name_lookup_not_the_spec_F26 : compile a_f26 (Mode true true true false false true true) = None.
+Example old_name_lookup_not_the_spec_F26 : compile a_f26 (Mode true true true false false true true true true true) = None.
 Proof. vm_compute. reflexivity. Qed.
 Example old_inherits_resolution_not_the_spec_F27 :
-  compile a_f27t (Mode true true true false true false true) = None /\ compile a_f27w (Mode true true true false true false true) = None.
+  compile a_f27t (Mode true true true false true false true true true true) = None /\ compile a_f27w (Mode true true true false true false true true true true) = None.
 Proof. vm_compute. split; reflexivity. Qed.
 Example repeated_acl_refuted_F28 :
-  exists d, compile a_f28 (Mode true true true true true true true) = Some d
+  exists d, compile a_f28 (Mode true true true true true true true true true true) = Some d
             /\ satisfies (Trace a_f28 (render a_f28) (Compiled d true true)) = false.
 Proof. eexists; split; vm_compute; reflexivity. Qed.
 Example lost_descriptor_refs_refuted_F29 :
-  exists d, compile a_f29 (Mode true true true false true true false) = Some d
+  exists d, compile a_f29 (Mode true true true false true true false true true true) = Some d
             /\ satisfies (Trace a_f29 (render a_f29) (Compiled d true true)) = false.
 Proof. eexists; split; vm_compute; reflexivity. Qed.
+(* F30, F31, F32 (open): three more probes, each well-formed and hitting exactly one shape; the one-flag-off
+   variants do not model what the code does there (it adds a phantom nested table / refuses the
+   schema): `compile` = None, `agrees` abstains, the oracle judges the observed definition. *)
+Definition a_f30 : schema := [(Pkg "app1"%string [[(Ws "W"%string false [(QR "liba"%string "Base"%string)] None [(ITable (Table "T"%string false (Some (QR "liba"%string "A"%string)) [(TField (Fld "c"%string DInt32 false false None))]))])]]); (Pkg "liba"%string [[(Ws "Base"%string true [] None [(ITable (Table "A"%string true (Some (QR "sys"%string "CDoc"%string)) [(TField (Fld "a"%string DInt32 false false None)); (TNested "items"%string (Table "N"%string false None [(TField (Fld "x"%string DInt32 false false None))]))])); (ITable (Table "U"%string false (Some (QR "liba"%string "A"%string)) [(TField (Fld "u"%string DInt32 false false None))]))])]])].
+Definition a_f31 : schema := [(Pkg "app1"%string [[(Ws "Z"%string true [] None [(IRole "r"%string false)]); (Ws "A"%string true [(QR "app1"%string "Z"%string)] None []); (Ws "B"%string true [(QR "app1"%string "A"%string)] None []); (Ws "C"%string true [(QR "app1"%string "B"%string); (QR "app1"%string "A"%string)] None []); (Ws "W"%string false [(QR "app1"%string "C"%string)] None [])]])].
+Definition a_f32 : schema := [(Pkg "app1"%string [[(Ws "W"%string false [] None [(IRole "r"%string false); (ITable (Table "A"%string true (Some (QR "sys"%string "CDoc"%string)) [(TField (Fld "a"%string DInt32 false false None))])); (ITable (Table "T"%string false (Some (QR "app1"%string "A"%string)) [(TField (Fld "c"%string DInt32 false false None))])); (IGrant (Grant false (GTable (QR ""%string "T"%string) [(OSelect, ["a"%string; "c"%string])]) (QR ""%string "r"%string))); (IGrant (Grant false (GTableAll (QR ""%string "T"%string) ["a"%string]) (QR ""%string "r"%string)))])]])].
+Example shapes_of_the_probes_F30_F31_F32 :
+  (wf a_f30 = true /\ no_foreign_nested a_f30 = false /\ no_diamond_below a_f30 = true /\ grant_cols_own a_f30 = true)
+  /\ (wf a_f31 = true /\ no_foreign_nested a_f31 = true /\ no_diamond_below a_f31 = false /\ grant_cols_own a_f31 = true)
+  /\ (wf a_f32 = true /\ no_foreign_nested a_f32 = true /\ no_diamond_below a_f32 = true /\ grant_cols_own a_f32 = false)
+  /\ compile a_f30 (Mode true true true false true true true false true true) = None
+  /\ compile a_f31 (Mode true true true false true true true true false true) = None
+  /\ compile a_f32 (Mode true true true false true true true true true false) = None
+  /\ forallb (fun a => match compile a Ideal with
+                       | Some d => satisfies (Trace a (render a) (Compiled d true true))
+                       | None => false end) [a_f30; a_f31; a_f32] = true
+  /\ match find (fun i => qname_eqb (item_key i) ("app1", "T")%string) (compile_items a_f30 Ideal) with
+     | Some (ItStruct _ _ _ _ _ _ cs _) => map cd_type cs = [("liba", "N")%string]
+     | _ => False end.
+Proof. vm_compute. repeat split. Qed.
+
 (* and the compiler as it is passes on all of them *)
 Example repaired_compiler_on_the_probes :
   forallb (fun a => match compile a Go with
@@ -245,6 +280,7 @@ Print Assumptions old_name_lookup_not_the_spec_F26.
 Print Assumptions old_inherits_resolution_not_the_spec_F27.
 Print Assumptions repeated_acl_refuted_F28.
 Print Assumptions lost_descriptor_refs_refuted_F29.
+Print Assumptions shapes_of_the_probes_F30_F31_F32.
 Print Assumptions repaired_compiler_on_the_probes.
 Print Assumptions ex_nonvacuous.
 Print Assumptions ex_declares_role.
